@@ -16,8 +16,8 @@ variable {P M : Type}
 /-- the move `m` keeps a win at `p`: it is accepted and the side to move afterwards is lost against best play -/
 def Keeps (g : Game P M) (p : P) (m : M) : Prop := ∃ c, g.apply p m = .ok c ∧ Loss g c
 
-/-- the first move of `l` (if any) keeps a win at `p` -/
-def HeadKeeps (g : Game P M) (p : P) (l : List M) : Prop := ∀ m rest, l = m :: rest → Keeps g p m
+/-- `l` is not empty and its first move keeps a win at `p` -/
+def HeadKeeps (g : Game P M) (p : P) (l : List M) : Prop := ∃ m rest, l = m :: rest ∧ Keeps g p m
 
 /-- a table entry read for position `p`: a winning lower/exact entry names a move that keeps the win -/
 def AttE (g : Game P M) (e : TEntry M) (p : P) : Prop :=
@@ -42,10 +42,13 @@ def AttRes (g : Game P M) (p : P) (α : Int) (r : Res M) : Prop :=
 theorem Sat.and {α : Type} {x : Except Err α} {Q R : α → Prop} (h1 : Sat x Q) (h2 : Sat x R) :
     Sat x (fun a => Q a ∧ R a) := fun a ha => ⟨h1 a ha, h2 a ha⟩
 
-theorem headKeeps_cons {g : Game P M} {p : P} {m : M} {l : List M} (h : Keeps g p m) : HeadKeeps g p (m :: l) := by
-  intro m' rest e
+theorem headKeeps_cons {g : Game P M} {p : P} {m : M} {l : List M} (h : Keeps g p m) : HeadKeeps g p (m :: l) :=
+  ⟨m, l, rfl, h⟩
+
+theorem HeadKeeps.head {g : Game P M} {p : P} {m : M} {l : List M} (h : HeadKeeps g p (m :: l)) : Keeps g p m := by
+  obtain ⟨m', rest, e, hk⟩ := h
   cases e
-  exact h
+  exact hk
 
 /-! ### the table -/
 
@@ -199,7 +202,7 @@ theorem pvStore_att {g : Game P M} (hm : HashMovesOK g) (o : Oracle M) (p : P) (
           simp only [Bool.not_false, if_true] at hb
           simp only [Facts.upperBound, Facts.lowerBound, Facts.exactBound] at hb
           omega
-        | true => exact hm p q hq.symm b0 (hk hi hw b0 tl hbest)
+        | true => exact hm p q hq.symm b0 (by have := hk hi hw; rw [hbest] at this; exact this.head)
       · exact Sat.pure ⟨hs1, rfl⟩
     · exact Sat.throw
 
@@ -228,7 +231,7 @@ theorem zwStore_att {g : Game P M} (hm : HashMovesOK g) (o : Oracle M) (p : P) (
       intro q hq hb hw
       dsimp only at hq hb hw ⊢
       cases hd : a.didCut with
-      | true => exact hm p q hq.symm b0 (hk hd (by omega) b0 tl hbest)
+      | true => exact hm p q hq.symm b0 (by have := hk hd (by omega); rw [hbest] at this; exact this.head)
       | false =>
         rw [hd] at hb
         simp only [Bool.false_eq_true, if_false, Facts.upperBound, Facts.lowerBound, Facts.exactBound] at hb
